@@ -33,9 +33,12 @@ def find_value_(
         scheduler: abc.SchedulerBase | None = None,
     ) -> abc.DisposableBase:
         index = 0
+        found = False
 
         def on_next(x: _T) -> None:
-            nonlocal index
+            nonlocal index, found
+            if found:
+                return
             should_run = False
             try:
                 should_run = predicate(x, index, source)
@@ -44,6 +47,8 @@ def find_value_(
                 return
 
             if should_run:
+                # recorded before emitting: the downstream call may re-enter this handler
+                found = True
                 observer.on_next(index if yield_index else x)
                 observer.on_completed()
             else:
